@@ -1,5 +1,6 @@
 import Verif.Lemmas.C07
 import Verif.Lemmas.C07Sem
+import Verif.Lemmas.RegexOrd
 /-! # C07 — Rewriting stages change exactly what LogQL says they change
 
 Theorems over `LogQL.Stage.apply` for label_format / line_format / drop / keep / decolorize (tied to the code by the C07 correspondence, which evaluates *query text*, so the parser's choice of rename source and target is part of what is compared).  Templates and the ANSI matcher are reached through `Env`. -/
@@ -140,6 +141,29 @@ theorem C07_search_leftmost (r : Regex.Re) (s : List Nat) (a b : Nat) (caps : Re
     (h : Regex.searchFrom r (Regex.fuelFor r s) (s.length + 1) s 0 = some (a, b, caps))
     (pre mid post : List Nat) (hs : s = pre ++ mid ++ post) (hm : Regex.Matches r pre.length mid post) :
     a ≤ pre.length := RegexLeft.search_leftmost r s a b caps h pre mid post hs hm
+
+
+/-- **which match** (leftmost-first, as Go's `regexp`): `Regex.ends r pos s` lists the lengths of the prefixes
+of `s` that `r` matches at offset `pos` in priority order — left alternative first, greedy iteration, optional
+part present before absent — defined without continuation, fuel or captures (Verif/Env/RegexOrd.lean); it
+enumerates exactly the matches of the relational semantics -/
+theorem C07_ends_enumerates_matches (r : Regex.Re) (pos : Nat) (s : List Nat) (n : Nat) :
+    n ∈ Regex.ends r pos s ↔ n ≤ s.length ∧ Regex.Matches r pos (s.take n) (s.drop n) :=
+  RegexOrd.mem_ends_iff r pos s n
+
+/-- …and the span an unanchored search reports — what `decolorize` cuts, what group 0 of the `regexp` stage
+is — starts at the leftmost offset where the expression matches at all and ends at the FIRST element of that
+list -/
+theorem C07_search_is_leftmost_first (r : Regex.Re) (s : List Nat) (a b : Nat) (caps : Regex.Caps)
+    (h : Regex.searchFrom r (Regex.fuelFor r s) (s.length + 1) s 0 = some (a, b, caps)) :
+    (∀ pre mid post, s = pre ++ mid ++ post → Regex.Matches r pre.length mid post → a ≤ pre.length) ∧
+    a ≤ b ∧ (Regex.ends r a (s.drop a)).head? = some (b - a) ∧
+    (b - a ≤ (s.drop a).length ∧ Regex.Matches r a ((s.drop a).take (b - a)) ((s.drop a).drop (b - a))) :=
+  RegexOrd.searchFrom_leftmost_first r s a b caps h
+
+/-- non-vacuity: `(a|ab)(c|bcd)?` on "abcd" prefers the end 4 (then 1, 3, 2) -/
+example : Regex.ends (.seq (.alt (.chr 97) (.seq (.chr 97) (.chr 98))) (.opt (.alt (.chr 99) (.seq (.chr 98) (.seq (.chr 99) (.chr 100))))))
+    0 [97, 98, 99, 100] = [4, 1, 3, 2] := by decide
 
 
 end LogQL.C07
